@@ -190,7 +190,12 @@ def control_program(draw):
     for nm in targets:
         body = []
         if draw(st.integers(0, 2)) > 0:
-            seeded[nm] = draw(st.integers(0, 1000))
+            # (any seed random.Random takes; strings hash differently in
+            # every interpreter, the RT and NRT workers run with different
+            # PYTHONHASHSEED values)
+            seeded[nm] = draw(st.one_of(
+                st.integers(0, 1000), st.integers(0, 1000),
+                st.sampled_from(['melody', 'b', 'seed-7'])))
             body.append(['seed', seeded[nm]])
         for _ in range(draw(st.integers(2, 7))):
             body.append(['log', nxt()])
